@@ -140,11 +140,17 @@ class FileResponseMixin:
         }
         if download_name or content_type == "application/octet-stream":
             download_name = download_name or os.path.basename(filepath)
-            content_disposition = (
-                "attachment; "
-                f'filename="{download_name}"; '
-                f"filename*=utf-8''{quote(download_name)}"
-            )
+            if download_name.isascii():
+                content_disposition = (
+                    "attachment; "
+                    f'filename="{download_name}"; '
+                    f"filename*=utf-8''{quote(download_name)}"
+                )
+            else:
+                # header text must be Latin-1: only send the encoded form
+                content_disposition = (
+                    f"attachment; filename*=utf-8''{quote(download_name)}"
+                )
             headers["content-disposition"] = content_disposition
 
         return headers
